@@ -230,6 +230,10 @@ class LoadScheduling:
 
         """
         pending = self.node2pending.pop(node)
+        if not self.collection_is_completed:
+            # Not all initial collections are in yet: the replacement of this
+            # node has to report a collection in its place.
+            self.node2collection.pop(node, None)
         if not pending:
             return None
 
